@@ -19,7 +19,8 @@ ASSUMPTIONS = [
     'the dead branch "affinity mask for thread N has already been set" and used_cores != 0 are not modelled '
     '(affinity_data::init is only called with used_cores = 0)',
     '--pika:cores (max_cores) keeps its default (= number of threads); explicit --pika:cores smaller than the thread '
-    'count together with --pika:ignore-process-mask is outside the property quantifier',
+    'count together with --pika:ignore-process-mask is outside the property quantifier (one fixed witness case of it is '
+    'run: finding C15:compact:cores_lt_threads_truncated = Example C15_worker_count_compact_unguarded_refuted)',
 ]
 
 MODES = ['compact', 'scatter', 'balanced', 'numa-balanced']
@@ -78,7 +79,7 @@ def topo_xml(sockets, osidx):
 class Case:
     """one start of the runtime"""
 
-    def __init__(self, cid, sockets, osidx, use, mask, bind, n, pools, env_kind='xml', probe=0):
+    def __init__(self, cid, sockets, osidx, use, mask, bind, n, pools, env_kind='xml', probe=0, cores=None):
         self.id = cid
         self.sockets = sockets          # list of list of PU counts
         self.osidx = osidx              # OS index of logical PU i
@@ -89,6 +90,7 @@ class Case:
         self.pools = pools              # list of list of positions
         self.env_kind = env_kind        # xml | synthetic | real
         self.probe = probe
+        self.cores = cores              # explicit --pika:cores (max_cores); None = default (= thread count)
         self.real_mask = None           # logical PUs allowed by the OS (real machine only)
 
     def total(self):
@@ -99,10 +101,11 @@ class Case:
             m = 'full' if self.real_mask is None else ','.join(str(self.osidx[i]) for i in self.real_mask)
         else:
             m = ','.join(str(b) for b in self.mask) if self.mask else ''
-        return 'IN BIND %s topo=%s osidx=%s use=%d mask=%s bind=%s n=%s pools=%s' % (
+        return 'IN BIND %s topo=%s osidx=%s use=%d mask=%s bind=%s n=%s pools=%s%s' % (
             self.id, '|'.join(','.join(str(c) for c in s) for s in self.sockets),
             ','.join(str(x) for x in self.osidx), 1 if self.use else 0, m, self.bind, self.n,
-            ';'.join('.'.join(str(p) for p in pl) for pl in self.pools) if self.pools else '-')
+            ';'.join('.'.join(str(p) for p in pl) for pl in self.pools) if self.pools else '-',
+            '' if self.cores is None else ' cores=%d' % self.cores)
 
     def argv(self):
         a = [self.id, ';'.join('.'.join(str(p) for p in pl) for pl in self.pools) if self.pools else '-',
@@ -114,6 +117,8 @@ class Case:
             a.append('--pika:bind=%s' % self.bind)
         if not self.use:
             a.append('--pika:ignore-process-mask')
+        if self.cores is not None:
+            a.append('--pika:cores=%d' % self.cores)
         if self.mask is not None:
             v = 0
             for b in self.mask:
@@ -217,7 +222,13 @@ def monitor(c, line):
         if want > len(eff):
             hits.append(('C15:%s:oversubscription_accepted' % mode,
                          '%d threads on %d allowed PUs accepted' % (want, len(eff))))
-        if nw != want or len(ws) != nw:
+        if (mode == 'compact' and not c.use and c.cores is not None and c.cores < want and nw < want
+                and len(ws) == nw):
+            # witness of C15_worker_count_compact_unguarded_refuted (outside the property's quantifier)
+            hits.append(('C15:compact:cores_lt_threads_truncated',
+                         '--pika:ignore-process-mask --pika:cores=%d --pika:threads=%d --pika:bind=compact: started %d '
+                         'workers, no error' % (c.cores, want, nw)))
+        elif nw != want or len(ws) != nw:
             hits.append(('C15:%s:worker_count' % mode, 'requested %d workers, runtime started %d' % (want, nw)))
         seen = {}
         for i, w in enumerate(ws):
@@ -328,6 +339,10 @@ def gen_cases(rng, ncases, real):
                 cases.append(Case(cid(), socks, list(range(tot)), True, list(range(tot)), mode, n, []))
     for n in (1, 2, 3, 8, 9):
         cases.append(Case(cid(), [[1]] * 8, list(range(8)), True, list(range(8)), 'numa-balanced', n, []))
+    # witness of C15_worker_count_compact_unguarded_refuted: explicit --pika:cores below the thread count while the
+    # process mask is ignored (compact sweeps the same core again); and the same request with the mask in use (fine)
+    cases.append(Case(cid(), [[1, 1]], [0, 1], False, None, 'compact', 2, [], cores=1))
+    cases.append(Case(cid(), [[1, 1]], [0, 1], True, None, 'compact', 2, [], cores=1))
     cases.append(Case(cid(), [[2, 2], [2, 2]], list(range(8)), True, list(range(8)), 'balanced', 6, [[1, 3], [2]], probe=2))
     cases.append(Case(cid(), [[2, 2], [2, 2]], list(range(8)), True, None, 'balanced', 3, [], env_kind='synthetic'))
     cases.append(Case(cid(), [[2, 2], [2, 2]], list(range(8)), True, [1, 2, 4, 5, 6, 7], 'numa-balanced', 3, [], env_kind='synthetic'))
